@@ -477,6 +477,13 @@ def install(reg):
         return A.ewise(cx, lambda x, y: T.le(mathfn.m_abs(cx, T.sub(x, y)), T.add(atol, T.mul(rtol, mathfn.m_abs(cx, y)))),
                        [to_array_if_seq(itp, a[0]), to_array_if_seq(itp, a[1])], "bool")
 
+    @fn("numpy.allclose")
+    def np_allclose(itp, a, k):
+        c = np_isclose(itp, a, k)
+        if isinstance(c, SArr):
+            return _all(itp, c, [], {})
+        return c
+
     @fn("numpy.ndim")
     def np_ndim(itp, a, k):
         v = a[0]
